@@ -87,10 +87,10 @@ Print Assumptions converters_context_pass.
       errors.Join with an unrelated error; any depth; frame texts that do not themselves spell one of the strings the
       text predicates look for): the converter gives w[c] the same kinds as c (or nil for both) — independent of the
       wrapping —, that is at most one kind, and converting the result again does not change its kinds (idempotent at
-      kind level).  The domain of the filesystem converter excludes the two errnos it can only recognise through
-      os.IsTimeout (EAGAIN, ETIMEDOUT): for them the statement is FALSE, see the next theorem. *)
+      kind level).  No exception: since fixes/C11-timeout-through-wrapping.patch the timeout case of the filesystem
+      converter (predicate filesystem.isTimeoutError) sees EAGAIN / ETIMEDOUT through wrapping too. *)
 Theorem converters_stable :
-  (forall c w, In c fs_domain -> forallb frame_ok w = true ->
+  (forall c w, In c base_conds -> forallb frame_ok w = true ->
      res_kinds (conv_fs (plug w c)) = res_kinds (conv_fs c) /\ at_most_one (res_kinds (conv_fs c)) = true /\
      match conv_fs (plug w c) with CNil => True | CErr r => res_kinds (conv_fs r) = Some (b_kinds r) end) /\
   (forall c w, In c base_conds -> forallb frame_ok w = true ->
@@ -102,15 +102,16 @@ Theorem converters_stable :
 Proof. exact converters_wrapping_l. Qed.
 Print Assumptions converters_stable.
 
-(* 3. The excluded part is really false of the code: ETIMEDOUT maps to timeout when bare (or inside a *PathError), to
-      no kind at all under one %w wrapper — os.IsTimeout does not look through it and no errors.Is-based or textual
-      predicate of the timeout case recognises the errno.  Replayed on the implementation by the harness first on every
-      run (signature converter-wrapping:fs:errno-timeout). *)
-Theorem converters_stable_errno_timeout_refuted :
+(* 3. Before that patch the statement was false: with the filesystem table minus isTimeoutError (fs_cases_before_fix,
+      derived from the generated table) ETIMEDOUT maps to timeout when bare and to no kind under one %w wrapper, because
+      os.IsTimeout does not look through it; with the generated table both map to timeout. *)
+Theorem converters_stable_errno_timeout_before_fix :
   exists n w, errno_timeout n = true /\ forallb frame_ok w = true /\
-    res_kinds (conv_fs (BErrno n)) = Some [ErrTimeout] /\ res_kinds (conv_fs (plug w (BErrno n))) = Some [].
-Proof. exact fs_errno_timeout_wrapping_refuted_l. Qed.
-Print Assumptions converters_stable_errno_timeout_refuted.
+    res_kinds (run_conv fs_pre fs_cases_before_fix (BErrno n)) = Some [ErrTimeout] /\
+    res_kinds (run_conv fs_pre fs_cases_before_fix (plug w (BErrno n))) = Some [] /\
+    res_kinds (conv_fs (plug w (BErrno n))) = Some [ErrTimeout].
+Proof. exact fs_errno_timeout_before_fix_l. Qed.
+Print Assumptions converters_stable_errno_timeout_before_fix.
 
 (* 4. Every name of the generated tables (predicate helper, errors.Is target, pre-step) is one this model interprets. *)
 Theorem converter_tables_wellformed : tables_ok = true.
@@ -135,10 +136,10 @@ Proof. split; [exact convert_io_l | exact convert_rules_l]. Qed.
 Print Assumptions converters_first_rule_decides.
 
 Example converters_stable_nonvacuous :
-  In (BErrno 2) fs_domain /\ In (tv "afero.ErrFileNotFound") fs_domain /\
-  forallb frame_ok [FWrap (s2b "while testing"); FJoinL (s2b "cleanup failed too"); FPath (s2b "open /x/y")] = true /\
-  res_kinds (conv_fs (plug [FWrap (s2b "while testing"); FPath (s2b "open /x/y")] (BErrno 2))) = Some [ErrNotFound] /\
-  b_ctx_kind_of (BPath (s2b "read /x") (BJoin (BOpaque (s2b "noise")) BDeadline)) = Some ErrTimeout.
+  In (BErrno 2) base_conds /\ In (BErrno 110) base_conds /\ In (tv "afero.ErrFileNotFound") base_conds /\
+  forallb frame_ok [FWrap (s2b "while testing"); FJoinL (s2b "cleanup failed too"); FPath true (s2b "open /x/y")] = true /\
+  res_kinds (conv_fs (plug [FWrap (s2b "while testing"); FPath true (s2b "open /x/y")] (BErrno 2))) = Some [ErrNotFound] /\
+  b_ctx_kind_of (BPath true (s2b "read /x") (BJoin (BOpaque (s2b "noise")) BDeadline)) = Some ErrTimeout.
 Proof. vm_compute. repeat split; auto 40. Qed.
 
 
